@@ -13,7 +13,7 @@
    Left abstract on purpose: the `expected` 0..3 order machine of cssstylesheet (it decides
    whether a *parsed* rule is kept, never how many tokens a statement consumes), and everything
    the rule objects do with the token run they are given (selectors, values, media queries). *)
-From CssV Require Import Base Tokenizer Upto.
+From CssV Require Import Base Tokenizer Gen.UptoGen Upto.
 
 Inductive kind :=
 | KCharset | KImport | KNamespace | KVariables | KFontFace | KMedia | KPage
@@ -59,12 +59,38 @@ Definition cls_decl (t : tok) : tclass :=
   else if tyis t "ATKEYWORD" then CStmt KDeclAt
   else CStmt KDeclUnexpected.
 
-(* which _tokensupto2 call a handler makes: (flag, is the token passed as starttoken) *)
-Definition kmode (k : kind) : uptoflag * bool :=
+(* which _tokensupto2 call a handler makes: (flag, is the token passed as starttoken).
+   Generated data: translate/upto.py reads, for every handler of the three dispatch loops, the flag it passes and
+   whether it passes the token (Gen/UptoGen.v); `kmode` looks the handler of a kind up by its Python name.       *)
+Definition handler_name (k : kind) : str :=
   match k with
-  | KDeclIdent => (FSemicolon, true)
-  | KDeclUnexpected => (FSemicolon, true)
-  | _ => (FDefault, true)
+  | KCharset => s "charsetrule" | KImport => s "importrule" | KNamespace => s "namespacerule"
+  | KVariables => s "variablesrule" | KFontFace => s "fontfacerule" | KMedia => s "mediarule"
+  | KPage => s "pagerule" | KUnknown => s "unknownrule" | KRuleset => s "ruleset"
+  | KDeclIdent => s "ident" | KDeclUnexpected => s "unexpected" | KDeclAt => s "ATKEYWORD"
+  end.
+
+Definition flag_of_name (n : str) : option uptoflag :=
+  match n with [] => Some FDefault | _ => find (fun fl => eqs (flag_name fl) n) all_flags end.
+
+Definition call_of (tbl : list (str * (option (str * bool) * list str))) (h : str) : option (str * bool) :=
+  match assoc_s h tbl with
+  | Some (Some c, _) => Some c
+  | Some (None, d :: _) => match assoc_s d tbl with Some (Some c, _) => Some c | _ => None end   (* char -> unexpected *)
+  | _ => None
+  end.
+
+Definition kcall (k : kind) : option (str * bool) :=
+  match k with
+  | KDeclIdent | KDeclUnexpected => call_of gen_decl_calls (handler_name k)
+  | KDeclAt => Some gen_base2_atkeyword_call
+  | _ => call_of gen_sheet_calls (handler_name k)
+  end.
+
+Definition kmode (k : kind) : uptoflag * bool :=
+  match kcall k with
+  | Some (n, ws) => (match flag_of_name n with Some f => f | None => FDefault end, ws)
+  | None => (FDefault, true)              (* excluded by SkeletonFacts.handlers_generated *)
   end.
 
 Definition kmode_pinned (k : kind) : uptoflag * bool :=
@@ -110,6 +136,49 @@ Definition media_inner (ts : list tok) : list item := disp cls_media ts 0.
 Definition decl_block (ts : list tok) : list item := disp cls_decl ts 0.
 Definition skeleton_pinned (ts : list tok) := disp_gen upto_pinned kmode_pinned cls_sheet ts 0.
 Definition decl_block_pinned (ts : list tok) := disp_gen upto_pinned kmode_pinned cls_decl ts 0.
+
+(* ---- the `expected` 0..3 order state of cssstylesheet.py:160-290 ----
+   Per handler (Gen/UptoGen.gen_sheet_order): the N of `(expected or 0) > N` (statement consumed, reported, state
+   unchanged), the returned state, and whether a `not rule.wellformed` branch returns the state unchanged
+   (fix "a discarded statement does not advance the order state").  Whether a rule object is well-formed is
+   outside the model: `wf` is a parameter.  S and COMMENT give max(1, state); the CDO/CDC no-op lambdas return
+   None, which every handler reads as 0; the EOF production's 'EOF' is never read again.                     *)
+Definition ord_sig (k : kind) : option nat * option nat * bool :=
+  match assoc_s (handler_name k) gen_sheet_order with
+  | Some x => x
+  | None => (None, None, false)
+  end.
+
+Definition ord_step (wf : kind -> list tok -> bool) (st : nat) (k : kind) (run : list tok) : nat * bool :=
+  let '(th, nx, keeps) := ord_sig k in
+  if match th with Some t => Nat.ltb t st | None => false end then (st, false)
+  else
+    let kept := wf k run in
+    let nxt := match nx with Some n => n | None => Nat.max 1 st end in
+    (if kept || negb keeps then nxt else st, kept).
+
+Definition skip_state (st : nat) (t : tok) : nat :=
+  if tyis t "CDO" || tyis t "CDC" then 0 else if tyis t "EOF" then st else Nat.max 1 st.
+
+(* (statement or comment, kept?) in source order, and the state at the end *)
+Fixpoint sheet_ord (wf : kind -> list tok -> bool) (ts : list tok) (skip st : nat) : list (item * bool) * nat :=
+  match ts with
+  | [] => ([], st)
+  | t :: r =>
+    match skip with
+    | S n => sheet_ord wf r n st
+    | O =>
+      match cls_sheet t with
+      | CSkip => sheet_ord wf r 0 (skip_state st t)
+      | CComment => let '(l, e) := sheet_ord wf r 0 (Nat.max 1 st) in ((IComment t, true) :: l, e)
+      | CStmt k =>
+        let '(run, _) := pull upto kmode k t r in
+        let '(st', kept) := ord_step wf st k run in
+        let '(l, e) := sheet_ord wf r (length run - 1) st' in
+        ((IStmt k run, kept) :: l, e)
+      end
+    end
+  end.
 
 (* ---- rule set (cssstylerule.py:107-159) ---- *)
 Record ruleset_parts := mkRS { rs_selector : list tok;   (* incl. the '{' *)
